@@ -154,6 +154,9 @@ func run(c *fw.Ctx) {
 						runs = append(runs, &Run{Transport: tr, Client: cl, TimeoutMs: to, Phase: ph, Variant: "undecided", Index: idx})
 					}
 				}
+				// udp: a silent client behind a matched non-terminal route
+				idx++
+				runs = append(runs, &Run{Transport: "udp", Client: "silent", TimeoutMs: to, Phase: ph, Variant: "after-nonterminal", Index: idx})
 				// extra variants, on tcp
 				for _, v := range []string{"subroute", "http", "wrapper", "errmatcher", "aftermatch", "after-nonterminal", "or-sets",
 					"aftermatch-empty", "aftermatch-empty-nomatcher", "aftermatch-take"} {
@@ -205,7 +208,9 @@ type outcome struct {
 // execute returns true when the run reached a verdict (held or violated); false = inconclusive, retry.
 func execute(c *fw.Ctx, canary *oracle.Canary, r *Run, last bool) bool {
 	var o *outcome
-	if r.Transport == "udp" {
+	if r.Transport == "udp" && r.Variant == "after-nonterminal" {
+		o = runUDPSilent(canary, r)
+	} else if r.Transport == "udp" {
 		o = runUDP(canary, r)
 	} else {
 		o = runTCP(canary, r)
@@ -595,4 +600,75 @@ func replay(c *fw.Ctx, raw json.RawMessage) {
 	canary := oracle.StartCanary()
 	defer canary.Stop()
 	execute(c, canary, w.Run, true)
+}
+
+// runUDPSilent: a UDP client whose first datagram is matched by a non-terminal route (which clears the deadline) while
+// a later route stays undecided (which arms the same deadline again), and which then falls completely silent. The
+// blocked read has to be woken at the matching deadline: a probe datagram sent after timeout + slack must be served
+// by a fresh association (its first matcher is evaluated on the probe alone), not appended to the old one.
+func runUDPSilent(canary *oracle.Canary, r *Run) *outcome {
+	o := &outcome{observed: map[string]any{}}
+	T := r.timeout()
+	slack := T
+	if slack < time.Second {
+		slack = time.Second
+	}
+	routes, outer := routesFor(r)
+	name := nextID("c05udps")
+	pc := vnet.NewNamedPacketConn(name)
+	cfg := fmt.Sprintf(`{"servers":{"s":{"listen":["verifudp/%s:1"],"routes":%s,"matching_timeout":%q}}}`, name, routes, outer)
+	app, err := drive.StartAppConfig(cfg, "")
+	if err != nil {
+		o.violations = append(o.violations, "config-rejected|"+err.Error())
+		return o
+	}
+	defer app.Stop()
+	idSeq.Lock()
+	idSeq.n++
+	addr := vnet.UDPAddr(fmt.Sprintf("203.1.%d.%d", (idSeq.n>>8)&0xff, idSeq.n&0xff), 5000)
+	idSeq.Unlock()
+	id := "udp:" + addr.String()
+	rec := hmods.Track(id)
+	defer hmods.Untrack(id)
+
+	alignPhase(r.Phase)
+	start := vnet.Now()
+	pc.Inject([]byte{2, 7}, addr) // route "first" matches on the 2 and takes it; the undecided route then waits for ever
+	time.Sleep(T + slack)
+	probeAt := vnet.Now()
+	pc.Inject([]byte{9}, addr)
+	fresh := false
+	deadline := time.Now().Add(2 * time.Second)
+	for time.Now().Before(deadline) && !fresh {
+		for _, e := range rec.Events() {
+			if e.Kind == "match" && e.Who == "first" && len(e.Data) == 1 && e.Data[0] == 9 {
+				fresh = true
+			}
+		}
+		time.Sleep(2 * time.Millisecond)
+	}
+	o.observed["probe_at"] = (probeAt - start).String()
+	o.observed["fresh_association_for_probe"] = fresh
+	o.observed["canary_max"] = canary.MaxOversleep().String()
+	sawFirst := false
+	for _, e := range rec.Events() {
+		if e.Kind == "enter" && e.Who == "T" {
+			sawFirst = true
+		}
+		if (e.Kind == "enter" && e.Who != "T") || e.Kind == "fallback" {
+			o.violations = append(o.violations, fmt.Sprintf("d-handler-after-abort|handler %q was invoked although matching ended without a match", e.Who))
+		}
+	}
+	if !sawFirst {
+		o.inconcl = "the non-terminal route did not run"
+		return o
+	}
+	if !fresh {
+		if canary.MaxOversleep() > slack/4 {
+			o.inconcl = "noisy scheduler"
+			return o
+		}
+		o.violations = append(o.violations, fmt.Sprintf("b-not-bounded|a silent UDP client's matching (one route matched and was not terminal, a later route undecided) was still going on %v after its start: a datagram sent then was not served by a fresh association (matching timeout %v)", probeAt-start, T))
+	}
+	return o
 }
